@@ -227,6 +227,7 @@ class Machine:
             self.solver = z3.Solver()
             self.solver.set("timeout", timeout_ms)
         self.replaying = len(self.prefix) > 0
+        self.assume_mode = False  # obligations become assumptions ("states where this runs safely")
         self.pc: list = []
         self.obligations: list = []
         self.heap = Heap()
@@ -297,8 +298,26 @@ class Machine:
         self.assume(c)
         return True
 
+    def skip_obligations(self):
+        return self.replaying and not self.assume_mode
+
     def oblige(self, cond, label):
-        if cond is True or self.replaying:
+        if cond is True:
+            return
+        if self.assume_mode:
+            c = simp_bool(cond)
+            if c is True:
+                return
+            if c is False:
+                raise Infeasible()
+            if self.replaying:
+                self.assume(c)
+                return
+            if self.check(c) == z3.unsat:
+                raise Infeasible()
+            self.assume(c)
+            return
+        if self.replaying:
             return
         self.stats.obligations += 1
         if cond is False:
@@ -360,7 +379,7 @@ class Machine:
             self.oblige(False, ("null-load", label))
         if not b.alive:
             self.oblige(False, ("use-after-free load", b.name, label))
-        if not self.replaying:
+        if not self.skip_obligations():
             self.oblige(self._bounds(b, off, label), ("load out of bounds", b.name, label))
             self.oblige(simp_bool(b.init.cond(off)), ("uninitialised read", b.name, label))
         return self.read_cell(b, off)
@@ -428,7 +447,7 @@ class Machine:
             self.oblige(False, ("store to memory the kernel does not own", b.name, label))
         if self.store_whitelist is not None and p.block not in self.store_whitelist:
             self.oblige(False, ("store outside the permitted array", b.name, label))
-        if not self.replaying:
+        if not self.skip_obligations():
             self.oblige(self._bounds(b, off, label), ("store out of bounds", b.name, label))
         if b.elem == "float" and not isinstance(value, (PW, sym.UF)):
             value = self.falg.from_int(value)
@@ -492,7 +511,7 @@ class Machine:
             r = isub(a, b)
         else:
             r = imul(a, b)
-        if self.check_int32 and not self.replaying:
+        if self.check_int32 and not self.skip_obligations():
             if isinstance(r, int):
                 if not (INT_MIN <= r <= INT_MAX):
                     self.oblige(False, ("int32 overflow", label))
